@@ -22,7 +22,8 @@ EXPLANATION = (
     "get_bin_on_value_1d are the parameters as given, never rebound to a converted copy; (f) every way round the `while True` search loop moves a bound strictly "
     "(by a constant step, or `bound = guess` only after `guess == bound` was refuted), which is what makes fill() return.  (g) histogram.__init__, check_edges_increasing, get_bin_edges, unify_1_md, iter_bins_with_edges "
     "(and init_bins, a tabled exception) tell one- from multidimensional edges by the same test on edges[0].  Does not decide that the interpolation "
-    "search returns the right index (loop invariants over floats).")
+    "search returns the right index (loop invariants over floats)."    " Added after the eighth round of seeded changes and the second round of behaviour-preserving changes: (h, converse) a helper of lena that reports by raising (returns None on every path) is never asked for its value inside all()/any() over a generator or in a test."
+)
 RULES = {
     "C06-h": "VERDICT USED: no statement-level call discards the result of a lena function that returns a value on every path "
              "(check_edges_increasing and its helper either raise or are acted upon)",
